@@ -143,18 +143,76 @@ def tdvp_case(ctx, idx, rng):
         ctx.close('repeated-call.energy', abs(float(np.real(np.vdot(v3, mH @ v3))) - E0), TOL * nH, 'energy drift on a repeated call', detail)
 
 
+def mutate_mpo_in_place(rng, H):
+    """Changes the Hamiltonian held by the SAME MPO object: in-place rescaling of a tensor, in-place edit of a Hermitian on-site block,
+    rebinding of a tensor, or a gauge change by the public orthonormalize(). Returns a label; H stays Hermitian."""
+    how = str(rng.choice(['scale-inplace', 'scale-rebind', 'orthonormalize', 'scale-all-inplace']))
+    if how == 'orthonormalize' and np.linalg.norm(refs.dense_operator(H.A)) < 1e-9:
+        how = 'scale-inplace'       # orthonormalising the zero operator relabels its boundary bonds (dummy-bond branch): not a Hamiltonian any more
+    i = int(rng.integers(0, H.nsites))
+    c = float(rng.choice([-1.0, 0.5, 2.0, -1.7]))
+    if how == 'scale-inplace':
+        if np.iscomplexobj(H.A[i]) or True:
+            H.A[i] *= c
+    elif how == 'scale-rebind':
+        H.A[i] = c * H.A[i]
+    elif how == 'scale-all-inplace':
+        for W in H.A:
+            W *= 1.3
+    else:
+        H.orthonormalize(str(rng.choice(['left', 'right'])))
+    return how
+
+
+def quench_case(ctx, idx, rng):
+    """History: evolve, change the Hamiltonian held by the same MPO object, evolve again; conservation must hold with respect to the
+    Hamiltonian that is passed in at that moment (a cache keyed by object identity would use the old one)."""
+    two = bool(idx % 2)
+    prob = pick_problem(rng, Lmin=2 if two else 1, Lmax=6, maxdim=256)
+    if prob is None:
+        ctx.case(('no-nonzero-state',), nontrivial=False)
+        return
+    label, L, H, psi, prof = prob
+    fn = ptn.integrate_local_twosite if two else ptn.integrate_local_singlesite
+    numiter = int(rng.choice([2, 5, 25]))
+    dt = 1j * float(rng.uniform(0.02, 0.3))
+    hist = []
+    integ = 'twosite' if two else 'singlesite'
+    for rnd in range(int(rng.integers(2, 4))):
+        if rnd > 0:
+            hist.append(mutate_mpo_in_place(rng, H))
+        mH = refs.dense_operator(H.A)
+        nH = max(np.linalg.norm(mH, 2), 1.0)
+        v0 = refs.dense_state(psi.A)
+        n0 = float(np.linalg.norm(v0))
+        E0 = float(np.real(np.vdot(v0, mH @ v0))) / n0 ** 2
+        ctx.cur_info = {'integrator': integ, 'model': label, 'L': L, 'history': list(hist), 'round': rnd, 'dt': dt, 'numiter': numiter, 'qD': psi.qD}
+        detail = ctx.cur_info
+        ret = fn(H, psi, dt, int(rng.integers(1, 3)), numiter_lanczos=numiter)
+        if refs.mps_invariant(psi) is not None:
+            ctx.ok('quench.block-sparse-after', False, str(refs.mps_invariant(psi)), detail)
+            return
+        v1 = refs.dense_state(psi.A)
+        ctx.close('quench.return==norm-of-input', abs(float(ret) - n0), TOL * n0, 'return value', detail)
+        ctx.close('quench.norm-conserved', abs(np.linalg.norm(v1) - 1), TOL, f'norm not conserved in round {rnd} after {hist}', detail)
+        ctx.close('quench.energy-conserved-wrt-current-H', abs(float(np.real(np.vdot(v1, mH @ v1))) - E0), TOL * nH,
+                  f'energy with respect to the Hamiltonian passed in drifted in round {rnd} after {hist}', detail)
+    ctx.case(('quench', integ, label, f'L{L}', f'numiter{numiter}') + tuple(hist), sample={'integrator': integ, 'model': label, 'L': L, 'history': hist})
+
+
 SPEC = {
     'id': 'C08',
-    'rule': ('single-site and two-site (default tol_split = 0) TDVP with purely imaginary dt (|dt| <= 0.5, either sign), 1..4 steps, numiter in {1,2,3,5,25}, '
+    'rule': ('histories: evolve, change the Hamiltonian held by the same MPO object (in-place rescaling, rebinding, gauge change by orthonormalize), evolve again -- conservation with respect to the Hamiltonian passed in at that moment; single-site and two-site (default tol_split = 0) TDVP with purely imaginary dt (|dt| <= 0.5, either sign), 1..4 steps, numiter in {1,2,3,5,25}, '
              'on built-in models (Ising, XXZ, spin-1, Bose d=3, Fermi-Hubbard with encoded pairs) and harness-built random Hermitian MPOs with and without '
              'charges, L 1..7 (two-site >= 2), bond profiles random / maximal / over-complete / all-one, real and complex states, input norms 0.3..7 with '
              'phases. Norm and energy are evaluated on the dense state after the call AND at the entry of every internal local Hamiltonian step (trace '
              'points); every local site/bond step must preserve the norm of its tensor; return value and its scaling with the input norm, start from the normalised input (first trace point), repeated call, bond dims, '
              'Hamiltonian digest + write trap. distinct = (integrator, model, L, profile, numiter, steps).'),
-    'deciding': ['norm-conserved', 'energy-conserved', 'trace.norm-at-every-substep', 'trace.energy-at-every-substep', 'return==norm-of-input',
+    'deciding': ['quench.energy-conserved-wrt-current-H', 'norm-conserved', 'energy-conserved', 'trace.norm-at-every-substep', 'trace.energy-at-every-substep', 'return==norm-of-input',
                  'hamiltonian-untouched', 'singlesite.bond-dims-never-grow', 'trace.evolution-starts-from-normalised-input', 'trace.points-observed'],
     'workloads': [
         Workload('tdvp', tdvp_case, quick=520, thorough=48000),
+        Workload('quench', quench_case, quick=200, thorough=16000),
     ],
     'shards': {'quick': 4, 'thorough': 16},
     'assumptions': ['dense Hamiltonian from the independent contraction; tolerance 1e-10 (norm) and 1e-10*||H|| (energy)'],
